@@ -203,6 +203,8 @@ def gen_kind(rng, kind, style):
     """tokens for one argument of a given kind"""
     if kind == "x":
         return [rng.small() if style == "small" else rng.rat()], []
+    if kind == "#b":
+        return [], [rng.below(2)]
     if kind.startswith("#"):
         k = int(kind[1:])
         # in range with probability ~ 3/4, otherwise just outside
